@@ -51,6 +51,12 @@ func classes(f iogen.SeqFile) []string {
 	if len(f.Recs) >= 30 {
 		l = append(l, "many-short-reads")
 	}
+	for i := 1; i < len(f.Recs); i++ {
+		if f.Recs[i].Len > 255 && f.Recs[i-1].Len > f.Recs[i].Len {
+			l = append(l, "read-over-255-letters-after-a-longer-one")
+			break
+		}
+	}
 	lo, hi := 0, 0
 	if f.Format == "fastq" {
 		lo, hi = iogen.PhredRange(alphabet.Encoding(f.Enc))
